@@ -2,7 +2,8 @@
    Statements only (proofs: Proofs/RunProofs.v).  Model: Model/Vm.v [run_loop] /
    [run_count] (marwood/src/vm/run.rs after the fixes f6f5af0 and 9a27905), for
    ANY table of builtin procedures [ob].                                         *)
-From MW Require Import Model.Base Model.Datum Model.VmTypes Model.VmBase Model.Vm Proofs.RunProofs.
+From MW Require Import Model.Base Model.Datum Model.VmTypes Model.VmBase Model.Vm Model.Builtins
+  Proofs.RunProofs Proofs.RunProofs2.
 Open Scope N_scope.
 
 (* Whatever instruction failed, at whatever call depth, inside or outside a
@@ -35,3 +36,127 @@ Theorem C07_compile_failure_has_no_trace : forall ob fuel e s code msg s1,
   eval ob fuel e s = ROk (Failed code msg None) s1.
 Proof. intros ob fuel e s code msg s1 H. unfold eval. rewrite H. reflexivity. Qed.
 Print Assumptions C07_compile_failure_has_no_trace.
+
+
+(* =================================================================================
+   The failure exit as a state EQUATION (proofs: Proofs/RunProofs2.v).
+   [reset_regs s] = s with the stack cleared, sp = 0, bp = 0, ep = usize::MAX,
+   acc = Undefined — the five assignments of the error arm of run_count (run.rs:44-55) —
+   and every other field (heap, Rc store, global bindings and slots, stack capacity, ip,
+   output log) untouched.
+   ================================================================================= *)
+Theorem C07_reset_regs_unfold : forall s,
+  reset_regs s = with_acc (with_ep (with_bp (with_stack s tempty 0) 0) USIZE_MAX) VUndef /\
+  reset_regs s = mk_vm (hp s) (st s) (g_bind s) (g_slots s) tempty (scap s) 0 0 USIZE_MAX (ip s) VUndef (out_log s).
+Proof. intros s. split; reflexivity. Qed.
+Print Assumptions C07_reset_regs_unfold.
+
+(* A run that ends in a failure decomposes exactly: n instructions completed (steps n s =
+   Some s_n: none of them halted or failed), instruction n+1 returned Err in the state s_f
+   (the Rust mutates the Vm in place: s_f is the machine at the point where run_one gave up —
+   what that instruction had already done, e.g. operands popped by a builtin, is part of the
+   "completed effects"), the stack trace is the one of s_f, and the machine the caller gets
+   back IS reset_regs s_f.  So what a failed evaluation leaves changed is what the executed
+   instructions changed, with the registers and the stack reset: nothing else. *)
+Theorem C07_failure_state_equation : forall ob fuel cyc count s e msg tr s',
+  run_loop ob fuel cyc count s = ROk (Failed e msg tr) s' ->
+  exists n s_n s_f t, (n < fuel)%nat /\ steps ob n s = Some s_n /\ run_one ob s_n = RErr e msg s_f /\
+    stack_trace s_f = Ok t /\ tr = Some t /\ s' = reset_regs s_f.
+Proof. exact failed_exit_equation. Qed.
+Print Assumptions C07_failure_state_equation.
+
+(* conversely (uninterrupted run): every such decomposition IS the outcome *)
+Theorem C07_failure_state_converse : forall ob fuel cyc s n s_n s_f e msg t,
+  (n < fuel)%nat -> steps ob n s = Some s_n -> run_one ob s_n = RErr e msg s_f -> stack_trace s_f = Ok t ->
+  run_loop ob fuel cyc None s = ROk (Failed e msg (Some t)) (reset_regs s_f).
+Proof. exact failed_exit_converse. Qed.
+Print Assumptions C07_failure_state_converse.
+
+(* globals, heap contents, Rc payloads, output log, stack capacity: those of the failing
+   instruction's state; registers and stack: those of a machine between evaluations *)
+Theorem C07_failure_preserves_globals_and_heap_contents : forall ob fuel cyc count s e msg tr s',
+  run_loop ob fuel cyc count s = ROk (Failed e msg tr) s' ->
+  exists n s_n s_f, steps ob n s = Some s_n /\ run_one ob s_n = RErr e msg s_f /\
+    hp s' = hp s_f /\ st s' = st s_f /\ g_bind s' = g_bind s_f /\ g_slots s' = g_slots s_f /\
+    out_log s' = out_log s_f /\ scap s' = scap s_f /\ ip s' = ip s_f /\
+    sp s' = 0 /\ bp s' = 0 /\ ep s' = USIZE_MAX /\ acc s' = VUndef /\ stack s' = tempty.
+Proof. exact failure_preserves. Qed.
+Print Assumptions C07_failure_preserves_globals_and_heap_contents.
+
+(* the same for Vm::eval (run-time failures carry a trace; a compile-time failure is
+   C07_compile_failure_has_no_trace) *)
+Theorem C07_eval_failure_state_equation : forall ob fuel c s e msg t s',
+  eval ob fuel c s = ROk (Failed e msg (Some t)) s' ->
+  exists p n s_n s_f, prepare_eval c s = ROk tt p /\ (n < fuel)%nat /\ steps ob n p = Some s_n /\
+    run_one ob s_n = RErr e msg s_f /\ stack_trace s_f = Ok t /\ s' = reset_regs s_f.
+Proof. exact eval_failed_equation. Qed.
+Print Assumptions C07_eval_failure_state_equation.
+
+(* k consecutive failing evaluations — any forms, any fuel, each started on the machine the
+   previous one left ([fail_seq]) — leave sp = 0, bp = 0, ep = usize::MAX, acc = Undefined and
+   an empty stack, for every k >= 1: nothing accumulates *)
+Theorem C07_fail_seq_unfold : forall ob k s s',
+  fail_seq ob k s s' <->
+  match k with
+  | O => s' = s
+  | S k' => exists s1 fuel c e msg t,
+      eval ob fuel c s = ROk (Failed e msg (Some t)) s1 /\ fail_seq ob k' s1 s'
+  end.
+Proof.
+  intros ob k s s'. split.
+  - intros H. destruct H as [s|k s s1 s2 fuel c e msg t He Hs]; [reflexivity|].
+    exists s1, fuel, c, e, msg, t. auto.
+  - destruct k as [|k]; [intros ->; constructor|].
+    intros (s1 & fuel & c & e & msg & t & He & Hs). econstructor; eassumption.
+Qed.
+Print Assumptions C07_fail_seq_unfold.
+
+Theorem C07_k_failures_no_accumulation : forall ob k s s',
+  fail_seq ob k s s' -> (0 < k)%nat ->
+  sp s' = 0 /\ bp s' = 0 /\ ep s' = USIZE_MAX /\ acc s' = VUndef /\ stack s' = tempty.
+Proof. exact k_failures_no_accumulation. Qed.
+Print Assumptions C07_k_failures_no_accumulation.
+
+(* the stack CAPACITY (Stack.stack.len()).  The error arm does not touch it (equation above:
+   scap s' = scap s_f).  [cap_monotone ob]: no instruction and no compilation shrinks the
+   vector — stack.rs only ever grows it (push doubles); this is a HYPOTHESIS here (OPEN: it has
+   to be established for the builtin table, instruction by instruction).  Under it the
+   capacity after a failed evaluation is the MAXIMUM over every state the evaluation went
+   through (it grew only where an instruction grew it, never by the failure), and it is
+   monotone along k failing evaluations. *)
+Theorem C07_failure_capacity_is_max : forall ob fuel c s e msg t s',
+  cap_monotone ob ->
+  eval ob fuel c s = ROk (Failed e msg (Some t)) s' ->
+  scap s <= scap s' /\
+  exists p n, prepare_eval c s = ROk tt p /\ scap p <= scap s' /\
+    forall j s_j, (j <= n)%nat -> steps ob j p = Some s_j -> scap s_j <= scap s'.
+Proof. exact failure_capacity_is_max. Qed.
+Print Assumptions C07_failure_capacity_is_max.
+
+Theorem C07_k_failures_capacity : forall ob k s s',
+  cap_monotone ob -> fail_seq ob k s s' -> scap s <= scap s'.
+Proof. exact k_failures_capacity. Qed.
+Print Assumptions C07_k_failures_capacity.
+
+(* non-vacuity on vm_empty 8192 with the real builtin table:
+   (if (define x '(#t)) (nosuch 1) 2) completes the definition of x, then fails (nosuch is
+   unbound) at call depth 1: the global x stays bound to its value, sp = bp = 0, the stack is
+   empty, the capacity is the initial 256; three such evaluations in a row form a fail_seq *)
+Example C07_example_failure :
+  match eval other_builtin 100 rx_fail (vm_empty 8192) with
+  | ROk (Failed _ _ (Some t)) s' =>
+      length t = 2%nat /\ sp s' = 0 /\ bp s' = 0 /\ stack s' = tempty /\ scap s' = 256 /\
+      g_slots (vm_empty 8192) = [] /\ (exists p, g_slots s' = [VPtr p; VUndef])
+  | _ => False
+  end.
+Proof. vm_compute. repeat split. eexists; reflexivity. Qed.
+
+Example C07_example_three_failures :
+  exists s3, fail_seq other_builtin 3 (vm_empty 8192) s3 /\ sp s3 = 0 /\ bp s3 = 0 /\ scap s3 = 256.
+Proof.
+  eexists. split.
+  - eapply (fs_S other_builtin _ _ _ _ 100%nat rx_fail); [vm_compute; reflexivity|].
+    eapply (fs_S other_builtin _ _ _ _ 100%nat rx_fail); [vm_compute; reflexivity|].
+    eapply (fs_S other_builtin _ _ _ _ 100%nat rx_fail); [vm_compute; reflexivity|]. apply fs_0.
+  - vm_compute. auto.
+Qed.
